@@ -6,6 +6,7 @@ A value is one of
   ("G", frozenset(signs))  sign set, signs in {-1, 0, 1}
   ("B", mask, val)         bit vector with known bits `mask` having value `val`
   ("N", frozenset(ints))   any integer except the listed ones
+  ("R", lo, hi)            integer range, lo/hi may be None (unbounded)
 BOT is the string "BOT" (infeasible).
 """
 
@@ -50,7 +51,34 @@ def norm(v):
         if len(v[1]) > CAP:
             return TOP
         return v
+    if v[0] == "R":
+        lo, hi = v[1], v[2]
+        if lo is None and hi is None:
+            return TOP
+        if lo is not None and hi is not None:
+            if lo > hi:
+                return BOT
+            if hi - lo < CAP:
+                return ("S", frozenset(range(lo, hi + 1)))
+        return v
     return v
+
+
+def _range_of(v):
+    """(lo, hi) hull of a value, None = unbounded."""
+    if v is TOP:
+        return (None, None)
+    if v[0] == "S":
+        return (min(v[1]), max(v[1]))
+    if v[0] == "R":
+        return (v[1], v[2])
+    if v[0] == "G":
+        lo = None if -1 in v[1] else (0 if 0 in v[1] else 1)
+        hi = None if 1 in v[1] else (0 if 0 in v[1] else -1)
+        return (lo, hi)
+    if v[0] == "B":
+        return (0, None)
+    return (None, None)
 
 
 def signs_of(v):
@@ -69,6 +97,16 @@ def signs_of(v):
         if 0 in v[1]:
             return frozenset((1, -1))
         return ALLS
+    if v[0] == "R":
+        sg = set()
+        lo, hi = v[1], v[2]
+        if lo is None or lo < 0:
+            sg.add(-1)
+        if (lo is None or lo <= 0) and (hi is None or hi >= 0):
+            sg.add(0)
+        if hi is None or hi > 0:
+            sg.add(1)
+        return frozenset(sg)
     return ALLS
 
 
@@ -83,6 +121,13 @@ def join(a, b):
         return a
     if a[0] == "S" and b[0] == "S":
         return norm(("S", a[1] | b[1]))
+    if a[0] == "R" or b[0] == "R":
+        if "N" in (a[0], b[0]) or "B" in (a[0], b[0]):
+            return TOP
+        (l1, h1), (l2, h2) = _range_of(a), _range_of(b)
+        lo = None if (l1 is None or l2 is None) else min(l1, l2)
+        hi = None if (h1 is None or h2 is None) else max(h1, h2)
+        return norm(("R", lo, hi))
     if a[0] == "N" or b[0] == "N":
         if a[0] == "N" and b[0] == "N":
             return norm(("N", a[1] & b[1]))
@@ -134,6 +179,14 @@ def meet(a, b):
         return norm(("S", frozenset(x for x in a[1] if possible_value(b, x))))
     if b[0] == "S":
         return norm(("S", frozenset(x for x in b[1] if possible_value(a, x))))
+    if a[0] == "R" or b[0] == "R":
+        rr, oo = (a, b) if a[0] == "R" else (b, a)
+        if oo[0] in ("R", "G"):
+            (l1, h1), (l2, h2) = _range_of(rr), _range_of(oo)
+            lo = l1 if l2 is None else (l2 if l1 is None else max(l1, l2))
+            hi = h1 if h2 is None else (h2 if h1 is None else min(h1, h2))
+            return norm(("R", lo, hi))
+        return rr
     if a[0] == "N" and b[0] == "N":
         return norm(("N", a[1] | b[1]))
     if a[0] == "N" or b[0] == "N":
@@ -170,6 +223,8 @@ def possible_value(v, x):
         return (x & v[1]) == v[2]
     if v[0] == "N":
         return x not in v[1]
+    if v[0] == "R":
+        return (v[1] is None or x >= v[1]) and (v[2] is None or x <= v[2])
     return True
 
 
@@ -203,11 +258,33 @@ def cmp_filter(v, op, c):
     if op == "!=" and (v is TOP or v[0] == "N"):
         ex = frozenset((c,)) | (v[1] if v is not TOP else frozenset())
         return norm(("N", ex))
-    if v is not TOP and v[0] == "N":
-        # ordering against a constant: fall back to signs (keeps 0-exclusion)
-        v = norm(("G", signs_of(v)))
-        if v is TOP:
-            pass
+    if op in ("<", "<=", ">", ">=") and (v is TOP or v[0] in ("G", "R", "N")):
+        lo, hi = _range_of(v) if (v is not TOP and v[0] != "N") else (None, None)
+        if op == "<":
+            hi = c - 1 if hi is None else min(hi, c - 1)
+        elif op == "<=":
+            hi = c if hi is None else min(hi, c)
+        elif op == ">":
+            lo = c + 1 if lo is None else max(lo, c + 1)
+        else:
+            lo = c if lo is None else max(lo, c)
+        r = norm(("R", lo, hi))
+        if r != BOT and r is not TOP and r[0] == "R" and v is not TOP and v[0] == "G" and 0 not in v[1] \
+                and possible_value(r, 0):
+            # keep the non-zero knowledge of the sign set when the range straddles zero
+            if r[1] == 0:
+                r = norm(("R", 1, r[2]))
+            elif r[2] == 0:
+                r = norm(("R", r[1], -1))
+        if r != BOT and r is not TOP and r[0] == "S" and v is not TOP and v[0] == "N":
+            r = norm(("S", frozenset(x for x in r[1] if x not in v[1])))
+        return r
+    if op == "!=" and v is not TOP and v[0] == "R":
+        if v[1] == c:
+            return norm(("R", c + 1, v[2]))
+        if v[2] == c:
+            return norm(("R", v[1], c - 1))
+        return v
     sg = signs_of(v)
     if op == "!=":
         if c == 0:
@@ -243,7 +320,7 @@ def mask_filter(v, mask, truth):
         return BOT
     if v is not TOP and v[0] == "S":
         return norm(("S", frozenset(x for x in v[1] if bool(x & mask) == truth)))
-    if v is TOP or v[0] in ("G", "N"):
+    if v is TOP or v[0] in ("G", "N", "R"):
         kb = ("B", 0, 0)
     else:
         kb = v
@@ -270,7 +347,7 @@ def mask_eq_filter(v, mask, c, truth):
         return BOT if truth else v
     if v is not TOP and v[0] == "S":
         return norm(("S", frozenset(x for x in v[1] if ((x & mask) == c) == truth)))
-    kb = ("B", 0, 0) if (v is TOP or v[0] in ("G", "N")) else v
+    kb = ("B", 0, 0) if (v is TOP or v[0] in ("G", "N", "R")) else v
     if truth:
         common = kb[1] & mask
         if (kb[2] ^ c) & common:
@@ -288,7 +365,7 @@ def mask_eq_filter(v, mask, c, truth):
 def bits_or(v, c):
     if v is not TOP and v != BOT and v[0] == "S":
         return norm(("S", frozenset(x | c for x in v[1])))
-    kb = ("B", 0, 0) if (v is TOP or v == BOT or v[0] in ("G", "N")) else v
+    kb = ("B", 0, 0) if (v is TOP or v == BOT or v[0] in ("G", "N", "R")) else v
     return ("B", kb[1] | c, kb[2] | c)
 
 
@@ -296,7 +373,7 @@ def bits_andnot(v, c):
     """v & ~c"""
     if v is not TOP and v != BOT and v[0] == "S":
         return norm(("S", frozenset(x & ~c for x in v[1])))
-    kb = ("B", 0, 0) if (v is TOP or v == BOT or v[0] in ("G", "N")) else v
+    kb = ("B", 0, 0) if (v is TOP or v == BOT or v[0] in ("G", "N", "R")) else v
     return ("B", kb[1] | c, kb[2] & ~c)
 
 
@@ -304,7 +381,7 @@ def bits_and(v, c):
     """v & c (c constant): result has bits outside c known zero."""
     if v is not TOP and v != BOT and v[0] == "S":
         return norm(("S", frozenset(x & c for x in v[1])))
-    kb = ("B", 0, 0) if (v is TOP or v == BOT or v[0] in ("G", "N")) else v
+    kb = ("B", 0, 0) if (v is TOP or v == BOT or v[0] in ("G", "N", "R")) else v
     full = (1 << 64) - 1
     return norm(("B", (kb[1] | (full & ~c)), kb[2] & c))
 
@@ -343,4 +420,6 @@ def show(v):
         return "bits(mask=0x%x,val=0x%x)" % (v[1], v[2])
     if v[0] == "N":
         return "not{" + ",".join(str(x) for x in sorted(v[1])) + "}"
+    if v[0] == "R":
+        return "[%s..%s]" % ("-inf" if v[1] is None else v[1], "+inf" if v[2] is None else v[2])
     return str(v)
